@@ -104,7 +104,20 @@ func (cls *CachedLocations) expire(ctx *Context, sys *System, name string, relea
 	dead := false
 	if have {
 		cl.Lock()
-		cl.Pending = !released
+		// Count the requests that are working with this entry: an
+		// entry that has run out is dropped only when the last of
+		// them lets go.  (A flag is not enough: the release of one
+		// request dropped an entry that another, longer request was
+		// still using, and what that request wrote afterwards went
+		// to an instance the cache no longer knew.)
+		if released {
+			if 0 < cl.users {
+				cl.users--
+			}
+		} else {
+			cl.users++
+		}
+		cl.Pending = 0 < cl.users
 		Log(INFO, ctx, "CachedLocations.expire", "name", name, "cached", "exists")
 		if cl.Pending || cl.Expires.After(time.Now()) {
 			Log(INFO, ctx, "CachedLocations.expire", "name", name, "cached", "live")
@@ -154,6 +167,8 @@ func (cls *CachedLocations) Open(ctx *Context, sys *System, name string, check b
 		Log(INFO, ctx, "CachedLocations.Open", "name", name, "expires", expires.String())
 		cl := &CachedLocation{
 			Expires: expires,
+			Pending: true,
+			users:   1, // This request.
 		}
 
 		if ttl != Never || ctl.CachePending {
@@ -211,6 +226,9 @@ type CachedLocation struct {
 	sync.Mutex
 	Expires time.Time
 	Pending bool
+	// users is the number of requests between Open and Release
+	// (guarded by the CachedLocations lock).
+	users int
 	*Location
 }
 
@@ -793,6 +811,7 @@ func (sys *System) CreateLocation(ctx *Context, location string) (bool, error) {
 	atomic.AddUint64(&sys.stats.TotalCalls, uint64(1))
 
 	loc, err := sys.findLocation(ctx, location, false)
+	defer sys.releaseLocation(ctx, location)
 	ctx.SetLoc(loc)
 
 	var exists bool
@@ -865,7 +884,12 @@ func legalFactWithout(ctx *Context, fact string, prop string) error {
 //
 // Just calls 'findLocation(,,false)'.
 func (sys *System) GetLocation(ctx *Context, name string) (*Location, error) {
-	return sys.findLocation(ctx, name, false)
+	loc, err := sys.findLocation(ctx, name, false)
+	// The caller (a search or an event that looks at a parent)
+	// has no way to say when it is done, so it doesn't hold the
+	// cache entry.
+	sys.releaseLocation(ctx, name)
+	return loc, err
 }
 
 // findLocation is the main function for getting a location.
